@@ -6,11 +6,37 @@ use ndarray_stats::histogram::{Bins, Edges, Grid};
 /// Edges built from E symbolic u8 values (every weak-order pattern of E elements), via Vec or
 /// via Array1; every accessor checked against first principles for an arbitrary probe value.
 fn edges_check<const E: usize>(via_array: bool) {
+    edges_check_mode::<E>(if via_array { 1 } else { 0 });
+}
+
+/// mode 0: from Vec; 1: from a fresh Array1; 2: from an OWNED Array1 that was sliced in place
+/// (non-zero offset and shorter length inside a larger allocation); 3: from an owned reversed array.
+fn edges_check_mode<const E: usize>(mode: u8) {
     let input: [u8; E] = kani::any();
-    let edges = if via_array {
-        Edges::from(Array1::from(input.to_vec()))
-    } else {
-        Edges::from(input.to_vec())
+    let edges = match mode {
+        0 => Edges::from(input.to_vec()),
+        1 => Edges::from(Array1::from(input.to_vec())),
+        2 => {
+            let pad: [u8; 2] = kani::any();
+            let mut v = Vec::with_capacity(E + 2);
+            v.push(pad[0]);
+            let mut i = 0;
+            while i < E {
+                v.push(input[i]);
+                i += 1;
+            }
+            v.push(pad[1]);
+            Edges::from(Array1::from(v).slice_move(s![1..E + 1]))
+        }
+        _ => {
+            let mut v = Vec::with_capacity(E);
+            let mut i = 0;
+            while i < E {
+                v.push(input[E - 1 - i]);
+                i += 1;
+            }
+            Edges::from(Array1::from(v).slice_move(s![..;-1]))
+        }
     };
     let n = edges.len();
     assert!(n <= E);
@@ -63,7 +89,7 @@ fn edges_check<const E: usize>(via_array: bool) {
         }
         i += 1;
     }
-    assert!(r == expect, "indices_of(v) == Some((i,i+1)) iff e_i <= v < e_{i+1}");
+    assert!(r == expect, "indices_of(v) == Some((i,i+1)) iff e_i <= v < e_(i+1)");
     // bins
     let bins = Bins::new(edges.clone());
     let nb = if n == 0 { 0 } else { n - 1 };
@@ -129,6 +155,18 @@ fn c13_edges_vec_e0() {
 #[kani::unwind(8)]
 fn c13_edges_arr_e3() {
     edges_check::<3>(true);
+}
+//@ prop=C13 tier=quick mem=2 timeout=900 inst="Edges<u8>::from(owned Array1 sliced in place: offset 1 inside a 5-cell allocation) of 3 values" bounds="3 symbolic inputs + 2 symbolic hidden cells; unwind 8"
+#[kani::proof]
+#[kani::unwind(8)]
+fn c13_edges_arr_sliced_e3() {
+    edges_check_mode::<3>(2);
+}
+//@ prop=C13 tier=thorough mem=2 timeout=1800 inst="Edges<u8>::from(owned Array1 reversed in place) of 3 values" bounds="3 symbolic inputs; unwind 8"
+#[kani::proof]
+#[kani::unwind(8)]
+fn c13_edges_arr_reversed_e3() {
+    edges_check_mode::<3>(3);
 }
 //@ prop=C13 tier=thorough mem=4 timeout=3600 inst="Edges<u8>::from(Vec) of 5 values" bounds="5 symbolic inputs; unwind 9"
 #[kani::proof]
